@@ -192,11 +192,19 @@ def clause_bc(c: Check):
     ju_cls = ix.cls(JU + ':JUnitRootSuiteReporter')
     xs = ix.class_member(ju_cls, '_xml_for_suite')
     xc = ix.class_member(ju_cls, '_xml_for_case')
-    xerr = ix.func(JU + ':_xml_for_error')
-    xfail = ix.func(JU + ':_xml_for_failure')
+    # the helpers that build the <error> / <failure> elements are found by what they do (they construct an XML
+    # element), not by their names; they are interpreted together with _xml_for_case
+    jm = ix.module(JU)
+    elem_builders = set()
+    for f_ in jm.funcs_by_node.values():
+        if f_.cls is None and any(isinstance(n_, ast.Call) and isinstance(ix.callee(jm, f_, n_), External)
+                                  and ix.callee(jm, f_, n_).dotted.endswith('ElementTree.Element')
+                                  for n_ in walk_own(f_.node)):
+            elem_builders.add(f_)
+    c.require(len(elem_builders) >= 1, 'C16-c: no helper of the JUnit reporter constructs an XML element')
     jt = {}
     for label, st_name, verdict, access in kinds:
-        hooks = _InlineReporters(extra={xc})
+        hooks = _InlineReporters(extra={xc} | elem_builders | {f_ for f_ in jm.funcs_by_node.values() if f_.cls is None and not f_.is_generator and f_.name.startswith('_') and 'message' not in f_.name})
         it = Interp(ix, fo, hooks)
         st = State()
         case, st = make_case(c, it, st, status, st_name, verdict, access)
@@ -222,10 +230,14 @@ def clause_bc(c: Check):
                         if util.origin_call_key(v) == 'builtins.str' and v.origin[2] and isinstance(v.origin[2][0], K):
                             n = v.origin[2][0].v
                         attrs[k.v] = n
-                elif e.data['callee'] == xerr:
-                    elems.append('error')
-                elif e.data['callee'] == xfail:
-                    elems.append('failure')
+                elif isinstance(e.data.get('callee'), External) and e.data['callee'].dotted.endswith('ElementTree.Element') \
+                        and e.data['args']:
+                    tag = e.data['args'][0]
+                    c.require(isinstance(tag, K) and isinstance(tag.v, str),
+                              'C16-c: the tag of an XML element built for a case ending %s is not a constant (%s)' % (
+                                  label, util.describe(tag)))
+                    if tag.v in ('error', 'failure'):
+                        elems.append(tag.v)
             seen.add((attrs.get('failures'), attrs.get('errors'), tuple(elems)))
         unsuccessful = not (verdict is not None and verdict.name in DOCUMENTED_SUCCESS)
         jt[label] = sorted(seen, key=str)
